@@ -1,6 +1,8 @@
 package sym
 
 import (
+	"sort"
+	"strconv"
 	"fmt"
 	"go/constant"
 	"go/token"
@@ -72,6 +74,8 @@ type Exec struct {
 	ForkSites   map[string]int
 	extra       map[string]*Solver
 	primary     string
+	qcache      map[string]Result
+	CacheHits   int
 	dumpSeq     int
 	fastTimeout, finalTimeout time.Duration
 	NoIfConv    bool
@@ -436,6 +440,42 @@ func (ex *Exec) solver(kind string, final bool) *Solver {
 }
 
 func (ex *Exec) tryKinds(kinds []string, final bool, as []*Term, want []*Term) (Result, map[int]*big.Int) {
+	// verdict cache for model-free queries (the same sliced query recurs on sibling paths)
+	var key string
+	if len(want) == 0 {
+		ids := make([]int, 0, len(as))
+		for _, a := range as {
+			if a.IsFalse() {
+				return Unsat, nil
+			}
+			if !a.IsTrue() {
+				ids = append(ids, a.ID)
+			}
+		}
+		sort.Ints(ids)
+		var sb strings.Builder
+		for _, id := range ids {
+			sb.WriteString(strconv.Itoa(id))
+			sb.WriteByte(',')
+		}
+		key = sb.String()
+		if r, ok := ex.qcache[key]; ok && (r != Unknown || !final) {
+			ex.CacheHits++
+			return r, nil
+		}
+		defer func() {}()
+	}
+	r, m := ex.tryKindsRaw(kinds, final, as, want)
+	if key != "" {
+		if ex.qcache == nil {
+			ex.qcache = map[string]Result{}
+		}
+		ex.qcache[key] = r
+	}
+	return r, m
+}
+
+func (ex *Exec) tryKindsRaw(kinds []string, final bool, as []*Term, want []*Term) (Result, map[int]*big.Int) {
 	for i, kind := range kinds {
 		s := ex.solver(kind, final)
 		if s == nil {
